@@ -1,5 +1,5 @@
 (* C14 — failures inside a condition or an action are contained and reported (C14_statement in proofs/MemoTheorems.v). *)
-From Grule Require Import Base Values Syntax EngineAbs Facts Eval Refinement MemoTheorems.
+From Grule Require Import Base Values Syntax EngineAbs Facts Eval Frame FrameTheorems Refinement MemoTheorems.
 Theorem C14 : forall rules meth panics_inside mutating
   (meth_pure : forall fs f args ret fs', mutating f = false -> meth fs f args = Ok (ret, fs') -> fs' = fs),
   rules_ok rules mutating -> dependency_hypothesis rules meth mutating ->
@@ -8,3 +8,14 @@ Theorem C14 : forall rules meth panics_inside mutating
   C14_statement rules meth panics_inside mutating es c order.
 Proof. exact C14_proved. Qed.
 Print Assumptions C14.
+
+(* for flat rule sets (proofs/Frame.v: fields of top-level facts, constants, negation, parentheses, binary operators;
+   assignments and control built-ins) both hypotheses are theorems *)
+Theorem C14_flat : forall meth panics_inside mutating
+  (meth_pure : forall fs f args ret fs', mutating f = false -> meth fs f args = Ok (ret, fs') -> fs' = fs)
+  rules, flat_rules rules = true ->
+  forall es, NoDup (map e_key es) -> forall c,
+  forall order, (forall i l, Permutation.Permutation (order i l) l) ->
+  C14_statement rules meth panics_inside mutating es c order.
+Proof. exact FrameTheorems.C14_flat. Qed.
+Print Assumptions C14_flat.
